@@ -1,0 +1,11 @@
+//go:build verif
+
+package asp
+
+import "github.com/thought-machine/please/src/core"
+
+// ValidateSandboxForVerif exposes validateSandbox (sandbox opt-out whitelist and experimental-dir test)
+// to the verification harness (/verif, property C20). Not compiled without the verif tag.
+func ValidateSandboxForVerif(state *core.BuildState, target *core.BuildTarget) error {
+	return validateSandbox(state, target)
+}
